@@ -524,6 +524,7 @@ fn directed(rep: &mut Report, case_file: &std::path::Path) {
         trav: TravCfg::Distance { unit: DistanceUnit::Kilometers },
         state: StateCfg { dist_unit: DistanceUnit::Kilometers, dist_init: 0.0, time_unit: TimeUnit::Seconds, time_init: 0.0 },
         access: AccessCfg::None,
+        access_wrap: 0,
         cost: CostCfg { weights: vec![("distance".into(), 1.0)], vehicle_rates: vec![("distance".into(), VehicleCostRate::Raw)], edge_surcharge: vec![], turn_surcharge: vec![], agg: CostAggregation::Sum },
         frontier: FrontierCfg::None,
         term: TermCfg::None,
